@@ -689,7 +689,8 @@ def install_env_stubs(eng):
     def dlopen(e, st, args, ins):
         n = st.user.get("dl_n", 0) + 1
         st.user["dl_n"] = n
-        st.events.append(("dlopen", n))
+        fl = simp(args[1]) if len(args) > 1 else None
+        st.events.append(("dlopen", n, fl.as_long() if fl is not None and is_conc(fl) else fl))
         return [(st, BV(0x7E0000000000 + n * 0x100, 64))]
 
     def dlsym(e, st, args, ins):
